@@ -76,7 +76,36 @@ def _classify(got, want):
     return "layout-whitespace" if g == w else "layout-content"
 
 
+def check_after_mutations(ctx, r, indent, eol):
+    """Layout of a tree that was rendered, changed through the public API, and rendered again."""
+    from ..mutate import mutate_pair
+
+    r = gen.unshare(r)
+    live = gen.build_root(r)
+    live.get_html_string(indent, eol)
+    log = []
+    for _ in range(ctx.rng.randint(1, 4)):
+        m = mutate_pair(ctx.rng, live, r, benign=True)
+        if m:
+            log.append(m)
+            if not layout.valid(r):
+                return  # the mutation produced a block inside an inline tag: nothing is promised
+            live.get_html_string(0, "\n")
+    if not log:
+        return
+    got = live.get_html_string(indent, eol)
+    want = layout.tag_str(r, indent, eol)
+    ctx.count("oracle.layout_after_mutation")
+    for m in log:
+        ctx.state("mutations_between_renderings", m)
+    if got != want:
+        ctx.violation("stale-layout-after-mutation", "after mutations %s the layout is not that of the mutated tree" % log,
+                      {"recipe_after_mutation": r, "mutations": log, "indent": indent, "eol": eol, "got": got[:1200], "want": want[:1200]})
+
+
 def replay(ctx, w):
+    if "recipe_after_mutation" in w:
+        return
     check_case(ctx, w["recipe"], w["indent"], w["eol"], w.get("add_ws", True))
 
 
@@ -138,5 +167,7 @@ def _run(ctx):
         indent = rng.choice([0, 0, 1, 2, 3, 5, 9])
         eol = rng.choice(EOLS)
         check_case(ctx, r, indent, eol, add_ws)
+        if r["k"] == "tag" and rng.random() < 0.2:
+            ctx.guard(check_after_mutations, ctx, r, indent, eol, witness={"recipe": r, "indent": indent, "eol": eol})
         ctx.case((r, indent, eol), nontrivial=nontrivial(r))
         ctx.state("indent_eol", (indent, eol))
